@@ -52,7 +52,8 @@ func (c CurlyRouter) selectRoutes(ws *WebService, requestTokens []string) sortab
 			candidates.add(curlyRoute{each, paramCount, staticCount}) // TODO make sure Routes() return pointers?
 		}
 	}
-	sort.Sort(candidates)
+	// stable : routes that rank the same (same method and path, other media types) stay in registration order
+	sort.Stable(candidates)
 	return candidates
 }
 
